@@ -11,12 +11,13 @@
     is `filenode ↦ Option content`.
   * every `range` over a Go map takes the iteration order as a parameter `π` (a function that permutes the
     entries); the theorems of C11 quantify over all of them.
-  * `strings.HasPrefix/Contains` = list prefix / infix; `strings.ToLower` is modelled on ASCII (names in
-    generated clusters are ASCII or caseless UTF-8 — stated in TRUSTED notes); `TypeName` = the generated
+  * `strings.HasPrefix/Contains` = list prefix / infix; `strings.ToLower` = `GoCase.goToLower` (Model/GoCase.lean: Go's
+    function on ASCII, invalid UTF-8 and a stated alphabet of cased letters); `TypeName` = the generated
     table + `fmt.Sprintf("oid:%d")`; `strconv.FormatUint(_, 10)` = decimal text.
 -/
 import PgVerif.Model.Catalog
 import PgVerif.Spec.Cluster
+import PgVerif.Model.GoCase
 namespace PgVerif.Model
 open PgVerif
 open PgVerif.Spec (ColumnInfo TableDump DatabaseDump DumpResult Options isPrefixB lowerB containsB natBytes)
@@ -71,7 +72,7 @@ def dumpTable (rr : RowReader) (filenode : Nat) (info : TableInfo) (attrs : List
 def keepTable (opts : Options) (info : TableInfo) : Bool :=
   !(info.kind != [114] && info.kind != []) &&
   !(opts.skipSystem && isPrefixB (strBytes "pg_") info.name) &&
-  !(opts.tableFilter != [] && !containsB (lowerB info.name) (lowerB opts.tableFilter))
+  !(opts.tableFilter != [] && !containsB (GoCase.goToLower info.name) (GoCase.goToLower opts.tableFilter))
 
 /-- the loop body for one filenode of the sorted key list -/
 def dumpOne (rr : RowReader) (tables : List (Nat × TableInfo)) (attrs : List (Nat × List AttrInfo))
